@@ -3,6 +3,14 @@ import GmQuic.Lemmas.Wake
 import GmQuic.Model.WakeAA
 import GmQuic.Model.Wake2
 import GmQuic.Lemmas.Wake2
+import GmQuic.Model.Wake3
+import GmQuic.Lemmas.Wake3
+import GmQuic.Model.Wake4
+import GmQuic.Lemmas.Wake4
+import GmQuic.Model.Wake5
+import GmQuic.Lemmas.Wake5
+import GmQuic.Model.WakeCid
+import GmQuic.Lemmas.WakeCid
 import GmQuic.Lemmas.WakeAA
 /-!
 C16 — no wake-up is ever lost.  Property theorems only.
@@ -212,6 +220,169 @@ theorem dgram_no_lost_wakeup_fails :
   have := h [.poll 0 0, .poll 1 1, .recv 5, .recv 6, .poll 1 1] ⟨0, 0, .poll 0 0⟩ (List.mem_cons_self ..)
   apply this
   unfold cond; decide
+
+/-! ### 9. stream sender: writable / flush / shutdown wakers across Ready → Sending → DataSent → DataRcvd / reset / error.
+`Writer`'s methods take `&mut self`: ONE owner task (task 0; `cancel` is its own action).  Includes the
+Sending→DataSent upgrade that DROPS `writable_waker`: under one owner nobody is left asleep (after `poll_shutdown` the
+owner's wait is the shutdown slot). -/
+
+theorem sender_no_lost_wakeup_partial (m : Nat) (sched : List Snd.Op) (h1 : ∀ op ∈ sched, SingleTask (Snd.proto m) op) :
+    ∀ x ∈ (run (Snd.proto m) sched).slp, ¬ cond (Snd.proto m) (run (Snd.proto m) sched).st x :=
+  no_lost_wakeup _ (Snd.sound m).toSound sched h1
+
+theorem sender_close_wakes_all (m : Nat) (sched : List Snd.Op) (h1 : ∀ op ∈ sched, SingleTask (Snd.proto m) op) :
+    ∀ x ∈ (run (Snd.proto m) sched).slp, x.w ∈ (Snd.step (run (Snd.proto m) sched).st .connError).2.wakes :=
+  close_wakes_all _ (Snd.sound m) sched h1
+
+/-- two tasks sharing a `Writer` (e.g. behind a mutex): the writer task blocked on the window is not woken when
+another task calls `poll_shutdown`, although its `poll_write` would now answer `EosSent` — the loss happens at
+`poll_shutdown`, before (and independently of) the upgrade that drops `writable_waker`. -/
+theorem sender_no_lost_wakeup_fails :
+    ¬ (∀ sched : List Snd.Op,
+        ∀ x ∈ (run (Snd.proto 0) sched).slp, ¬ cond (Snd.proto 0) (run (Snd.proto 0) sched).st x) := by
+  intro h
+  have := h [.poll 0 0 (.write 1), .poll 1 1 .shutdown] ⟨0, 0, .poll 0 0 (.write 1)⟩
+    (List.mem_cons_of_mem _ (List.mem_cons_self ..))
+  apply this
+  unfold cond; decide
+
+-- non-vacuity: one owner; blocked writer, then shutdown, FIN emitted (DataSent: writable slot dropped), owner asleep on shutdown
+example : (run (Snd.proto 2) [.poll 0 0 (.write 3), .poll 0 0 (.write 1), .load, .poll 0 1 .shutdown, .window 9, .load]).st.phase = .dataSent ∧
+    ((run (Snd.proto 2) [.poll 0 0 (.write 3), .poll 0 0 (.write 1), .load, .poll 0 1 .shutdown, .window 9, .load]).slp.map (fun x => (x.t, x.w))) = [(0, 1)] := by
+  decide
+
+/-! ### 10. stream receiver: `read_waker` across Recv → SizeKnown → DataRcvd, RESET_STREAM, connection error -/
+
+theorem receiver_no_lost_wakeup_partial (fx : Bool) (m : Nat) (sched : List Rcv.Op)
+    (h1 : ∀ op ∈ sched, SingleTask (Rcv.proto fx m) op) :
+    ∀ x ∈ (run (Rcv.proto fx m) sched).slp, ¬ cond (Rcv.proto fx m) (run (Rcv.proto fx m) sched).st x :=
+  no_lost_wakeup _ (Rcv.sound fx m) sched h1
+
+/-- the pinned code: an INVALID RESET_STREAM removes the stream from the input map before it is validated; the
+connection error that follows no longer reaches the reader, which stays asleep (and never learns of the error). -/
+theorem receiver_pinned_close_wakes_all_fails :
+    ¬ (∀ sched : List Rcv.Op, (∀ op ∈ sched, SingleTask (Rcv.proto false 100) op) →
+        ∀ x ∈ (run (Rcv.proto false 100) sched).slp,
+          x.w ∈ (Rcv.step false (run (Rcv.proto false 100) sched).st .connError).2.wakes) := by
+  intro h
+  have := h [.data 0 3 false, .poll 0 0 5, .poll 0 0 5, .reset 1] (by
+    intro op hop t w hp
+    simp only [List.mem_cons, List.not_mem_nil, or_false] at hop
+    rcases hop with rfl | rfl | rfl | rfl <;> simp [Rcv.proto] at hp <;> exact hp.1.symm)
+    ⟨0, 0, .poll 0 0 5⟩ (List.mem_cons_self ..)
+  revert this
+  simp [run, Run.step, Run.init, Rcv.proto, Rcv.step, Rcv.init, Rcv.waiting, nextSlp, takeWake,
+    RecvBuf.recv, RecvBuf.ins, RecvBuf.isReadable, RecvBuf.tryRead, RecvBuf.readGo]
+
+/-- with repo_patches/fix-C16-reset-validate-before-remove.diff -/
+theorem receiver_close_wakes_all (m : Nat) (sched : List Rcv.Op) (h1 : ∀ op ∈ sched, SingleTask (Rcv.proto true m) op) :
+    ∀ x ∈ (run (Rcv.proto true m) sched).slp,
+      x.w ∈ (Rcv.step true (run (Rcv.proto true m) sched).st .connError).2.wakes :=
+  close_wakes_all _ (Rcv.soundClose m) sched h1
+
+/-! ### 11. Listener (accept_bi / accept_uni): one slot per direction -/
+
+theorem listener_no_lost_wakeup_partial (m : Nat) (sched : List Listen.Op)
+    (h1 : ∀ op ∈ sched, SingleTask (Listen.proto m) op) :
+    ∀ x ∈ (run (Listen.proto m) sched).slp, ¬ cond (Listen.proto m) (run (Listen.proto m) sched).st x :=
+  no_lost_wakeup _ (Listen.sound m).toSound sched h1
+
+theorem listener_close_wakes_all (m : Nat) (sched : List Listen.Op)
+    (h1 : ∀ op ∈ sched, SingleTask (Listen.proto m) op) :
+    ∀ x ∈ (run (Listen.proto m) sched).slp, x.w ∈ (Listen.step (run (Listen.proto m) sched).st .connError).2.wakes :=
+  close_wakes_all _ (Listen.sound m) sched h1
+
+/-- two acceptor tasks (`accept_bi(&self)` on a shared connection handle): the second overwrites the first's waker;
+two streams arrive, the second task takes one, the first sleeps on a non-empty queue. -/
+theorem listener_no_lost_wakeup_fails :
+    ¬ (∀ sched : List Listen.Op,
+        ∀ x ∈ (run (Listen.proto 8) sched).slp, ¬ cond (Listen.proto 8) (run (Listen.proto 8) sched).st x) := by
+  intro h
+  have := h [.poll 0 0 false, .poll 1 1 false, .arrive false 1, .poll 1 1 false] ⟨0, 0, .poll 0 0 false⟩
+    (List.mem_cons_self ..)
+  apply this
+  unfold cond; decide
+
+/-! ### 12. `SendWakers::wake_all_by` fan-out: one burst task per path -/
+
+theorem fanout_no_lost_wakeup_partial (sched : List Fan.Op) (h1 : ∀ op ∈ sched, Fan.OneTaskPerPath op) :
+    ∀ x ∈ (run Fan.proto sched).slp, ¬ cond Fan.proto (run Fan.proto sched).st x :=
+  no_lost_wakeup _ Fan.sound sched h1
+
+/-- a signal wakes EVERY registered path whose task is asleep waiting for one of its bits -/
+theorem fanout_reaches_every_matching_path (sched : List Fan.Op) (h1 : ∀ op ∈ sched, Fan.OneTaskPerPath op)
+    (x : Sleeper Fan.Op) (hx : x ∈ (run Fan.proto sched).slp) (sig sg : BitVec 16)
+    (hop : x.op = .poll x.t x.w sig) (hreg : Fan.registered (run Fan.proto sched).st x.t = true)
+    (hm : sg &&& sig ≠ 0) :
+    x.w ∈ (Fan.step (run Fan.proto sched).st (.wakeAll sg)).2.wakes :=
+  Fan.fanout _ _ x (Fan.sound.run_inv sched h1) hx sig sg hop hreg hm
+
+example : ((run Fan.proto [.insert false, .insert true, .poll 0 0 1, .poll 1 1 3, .wakeAll 4]).slp.map (fun x => (x.t, x.w))) = [(1, 1), (0, 0)]
+    ∧ (Fan.step (run Fan.proto [.insert false, .insert true, .poll 0 0 1, .poll 1 1 3, .wakeAll 4]).st (.wakeAll 1)).2.wakes = [0, 1] := by
+  decide
+
+/-! ### 13/14. crypto stream (no close operation exists on either half) -/
+
+/-- the pinned code: `flush_waker` is stored by `poll_flush` and never woken by anything. -/
+theorem cryptowriter_pinned_no_lost_wakeup_fails :
+    ¬ (∀ sched : List CrW.Op, (∀ op ∈ sched, SingleTask (CrW.proto false) op) →
+        ∀ x ∈ (run (CrW.proto false) sched).slp, ¬ cond (CrW.proto false) (run (CrW.proto false) sched).st x) := by
+  intro h
+  have := h [.poll 0 0 (some 3), .load, .poll 0 0 none, .ack] (by
+    intro op hop t w hp
+    simp only [List.mem_cons, List.not_mem_nil, or_false] at hop
+    rcases hop with rfl | rfl | rfl | rfl <;> simp [CrW.proto] at hp <;> exact hp.1.symm)
+    ⟨0, 0, .poll 0 0 none⟩ (List.mem_cons_self ..)
+  apply this
+  unfold cond; decide
+
+/-- with repo_patches/fix-C16-crypto-flush-waker.diff -/
+theorem cryptowriter_no_lost_wakeup_partial (sched : List CrW.Op) (h1 : ∀ op ∈ sched, SingleTask (CrW.proto true) op) :
+    ∀ x ∈ (run (CrW.proto true) sched).slp, ¬ cond (CrW.proto true) (run (CrW.proto true) sched).st x :=
+  no_lost_wakeup _ CrW.sound sched h1
+
+example : ((run (CrW.proto true) [.poll 0 0 (some 3), .load, .poll 0 0 none]).slp.map (fun x => (x.t, x.w))) = [(0, 0)] ∧
+    (CrW.step true (run (CrW.proto true) [.poll 0 0 (some 3), .load, .poll 0 0 none]).st .ack).2.wakes = [0] := by decide
+
+theorem cryptoreader_no_lost_wakeup_partial (sched : List CrR.Op) (h1 : ∀ op ∈ sched, SingleTask CrR.proto op) :
+    ∀ x ∈ (run CrR.proto sched).slp, ¬ cond CrR.proto (run CrR.proto sched).st x :=
+  no_lost_wakeup _ CrR.sound sched h1
+
+/-! ### 15. `CidCell::borrow_cid` + the path's `SendWaker`: two critical sections on the waiter's side, all interleavings
+with any number of `assign` / `retire` calls (each one critical section including its `wake_by`) -/
+
+theorem cidcell_no_lost_wakeup (sched : List Cid.Op) :
+    let s := Cid.run sched
+    Cid.asleep s → ¬ Cid.wakePending s → ¬ Cid.cond s := by
+  intro s hs hw hc
+  have h := Cid.run_inv sched
+  have hw' : s.woken = false := by
+    cases hb : s.woken with
+    | false => rfl
+    | true => exact absurd hb hw
+  have h1 := (h.a hs hw').1
+  have h2 := h.b (Or.inr hs) hc
+  change (Cid.run sched).bit = false at h1
+  rw [h2] at h1; cases h1
+
+/-- `retire` (the cell's close) wakes a sleeper -/
+theorem cidcell_close_wakes (sched : List Cid.Op) (hs : Cid.asleep (Cid.run sched)) (hw : ¬ Cid.wakePending (Cid.run sched)) :
+    Cid.wakePending (Cid.step (Cid.run sched) .retire) := by
+  have h := Cid.run_inv sched
+  have hnc := cidcell_no_lost_wakeup sched hs hw
+  have hw' : (Cid.run sched).woken = false := by
+    cases hb : (Cid.run sched).woken with
+    | false => rfl
+    | true => exact absurd hb hw
+  have ha := h.a hs hw'
+  have hd := h.d (Or.inr hs) hnc
+  simp only [Cid.cond, not_or, Bool.not_eq_true] at hnc
+  simp [Cid.wakePending, Cid.step, Cid.takeWakeBy, Cid.wakeBy, hnc.2, hd, ha.1, ha.2]
+
+-- non-vacuity: asleep without an id; the assignment between `borrow_cid` and `wait_for` is not lost either
+example : Cid.asleep (Cid.run [.waiter, .waiter]) ∧ ¬ Cid.wakePending (Cid.run [.waiter, .waiter]) ∧
+    (Cid.run [.waiter, .assign, .waiter]).wpc = .c0 := by
+  simp only [Cid.asleep, Cid.wakePending]; decide
 
 /-! ### 5. `AntiAmplifier::balance` + `SendWaker` — per atomic operation, ALL interleavings of the waiter with any
 number of concurrent `on_rcvd` / `grant` / `abort` invocations (DESIGN Appendix A shape, verbatim) -/
